@@ -133,3 +133,17 @@ package channeldb
 //@   site call makeLogKey nth 0: assert arg(0) == ret(ToUint64)
 //@   site call makeLogKey nth 1: assert arg(0) == height
 //@   site call DeleteNestedBucket: assert arg(0) == ret(NestedReadWriteBucket)
+//@
+//@ // ---- C02/C03: a signed-but-unrevoked commitment is persisted (with lastWasRevoke = false and the acks of the
+//@ // ---- updates it carries) in the same transaction, and only for a channel that is not borked
+//@ func (c *ChannelStateDB) AppendRemoteCommitChain$1
+//@   props C02 C03
+//@   site call fetchChanBucketRw: assert arg(0) == tx && arg(2) == addr(channel.FundingOutpoint)
+//@   site call isChannelBorked: assert arg(0) == channel && arg(1) == retn(fetchChanBucketRw, 0) && retn(fetchChanBucketRw, 1) == nil
+//@   site call NewChannelPackager: assert arg(0) == channel.ShortChannelID && !retn(isChannelBorked, 0) && retn(isChannelBorked, 1) == nil
+//@   site call AckAddHtlcs: assert arg(0) == ret(NewChannelPackager) && arg(1) == tx && arg(2) == diff.AddAcks
+//@   site call AckSettleFails: assert arg(0) == ret(NewChannelPackager) && arg(1) == tx && arg(2) == diff.SettleFailAcks && ret(AckAddHtlcs) == nil
+//@   site call WriteElements: assert ret(AckSettleFails) == nil && len(arg(1)) == 1 && typeis(arg(1)[0], bool) && dyndata(arg(1)[0]) == 0
+//@   site call Put nth 0: assert arg(0) == retn(fetchChanBucketRw, 0) && arg(key) == lastWasRevokeKey && ret(WriteElements) == nil && arg(value) == ret(Bytes, 0)
+//@   site call serializeCommitDiff: assert arg(1) == diff && ret(Put, 0) == nil
+//@   site call Put nth 1: assert arg(0) == retn(fetchChanBucketRw, 0) && arg(key) == commitDiffKey && ret(serializeCommitDiff) == nil && arg(value) == ret(Bytes, 1)
